@@ -144,6 +144,7 @@ func mutations(valid map[string]any, pairwise bool) []mutant {
 		add("zero", `0`, "free")
 		add("minus-one", `-1`, "free")
 		add("2^31", `2147483648`, "free")
+		add("2^62", `4611686018427387904`, "free")
 		add("2^63", `9223372036854775808`, "free")
 		add("1e308", `1e308`, "free")
 		add("deep", deep, "free")
@@ -512,6 +513,27 @@ func run(c *vk.Ctx) {
 					map[string]any{"property": "C19", "harness": "c19", "part": "chain-restart", "name": h})
 				sent0 = st
 			}
+		}
+	}
+	// chains: an index configuration with out-of-range numbers, then the maintenance runs that use
+	// it (they execute on goroutines of their own: a panic there is not a 500, it ends the process)
+	if c.F.Shard == 1%c.F.NShards {
+		for _, field := range []string{"refine_batch_size", "refine_ef_construction", "delete_threshold"} {
+			for _, val := range []string{"-5", "0", "2147483648", "1e308"} {
+				send("chain-config", "POST", "/vector/indexes/nsA/config", fmt.Sprintf(`{"%s":%s}`, field, val), "free", true)
+				for _, typ := range []string{"refine", "vacuum"} {
+					send("chain-config", "POST", "/vector/indexes/nsA/maintenance", fmt.Sprintf(`{"type":"%s"}`, typ), "free", true)
+					time.Sleep(300 * time.Millisecond)
+				}
+				send("chain-config", "POST", "/vector/actions/search", `{"index_name":"nsA","k":2,"query_vector":[1,0]}`, "free", true)
+			}
+		}
+		send("chain-config", "POST", "/vector/indexes/nsA/config", `{"refine_batch_size":100,"refine_ef_construction":0,"delete_threshold":0.1}`, "free", true)
+		// a path query that cannot succeed, with the largest depth the field can carry: the answer
+		// (no path) must still arrive
+		for _, tgt := range []string{"nope", "v0"} {
+			send("deep-no-path", "POST", "/graph/actions/find-path", fmt.Sprintf(`{"index_name":"nsA","source_id":"v1","target_id":%q,"relations":["r"],"max_depth":4611686018427387904}`, tgt), "free", true)
+			send("deep-no-path", "POST", "/graph/actions/find-path", fmt.Sprintf(`{"index_name":"nsA","source_id":"nope2","target_id":%q,"relations":["r","q"],"max_depth":2147483648}`, tgt), "free", true)
 		}
 	}
 	// oversized body (built lazily, sparse): only on shard 0 / a couple of routes
